@@ -54,6 +54,11 @@ void io_reset();                              // clear trace, counters, plan, fd
 void io_record(bool on, bool with_reads = false);
 void io_set_fault(const FaultPlan &p);
 void io_clear_fault();
+// Benign perturbation (seed 0 = off): intercepted read/pread/write calls sometimes return a short count (>= 1 byte)
+// or fail with EINTR before doing anything -- outcomes POSIX allows for every such call and which lcdb's own loops in
+// env_unix_impl.h are written to absorb.  Deterministic: a function of the seed and a per-process call counter.
+void io_set_perturb(uint64_t seed);
+uint64_t io_perturbed();                       // perturbed calls since io_reset
 void io_mark(const std::string &text);        // harness marker into the trace
 const std::vector<IoEvent> &io_trace();
 std::vector<IoEvent> &io_trace_mut();
